@@ -96,57 +96,138 @@ static std::string embed_with(Arch arch, bool builder, const std::vector<uint8_t
          std::to_string(S.pool->alignment()) + " " + hex_or_dash(text->data(), text->buffer_size());
 }
 
-// `compile <arch> (l|g):<hex> ...`: BaseCompiler::_new_const for every item inside one function, end_func, finalize.
-// Output: `cc <answer> | <answer> ... || L <emb answer> || G <emb answer>`; each <answer> is what `add` would print
-// (`ok off size align min` / `err Name size align min`), each <emb answer> is `emb <label offset> <size> <align> <text[0, label+size)>`.
+// `cc <arch> item...` with items F (add_func void()), E (end_func), d:<hex> (embed data), l:<hex> / g:<hex>
+// (BaseCompiler::_new_const local / global), then finalize().
+// Output: `cc <answer> | <answer> ... || p0 <label offset|unbound> <size> <align> | p1 ... || <text section hex>`;
+// pool nodes are numbered in creation order (p0, p1, ...); answers: `ok` / `err Name` for F, E, d;
+// `ok p<k> <disp> <size> <align> <min>` / `err Name p<k> <size> <align> <min>` for constants.
 template<typename CompT>
 static std::string compile_with(Arch arch, const std::vector<std::string>& w) {
   Environment env(arch);
   CodeHolder code;
   if (code.init(env) != Error::kOk) return "err init";
   CompT cc(&code);
-  cc.add_func(FuncSignature::build<void>());
-  ConstPoolNode* pools[2] = { nullptr, nullptr };
+  std::vector<ConstPoolNode*> pools;
+  auto ordinal_of = [&](ConstPoolNode* pn) -> size_t {
+    for (size_t k = 0; k < pools.size(); k++) if (pools[k] == pn) return k;
+    pools.push_back(pn);
+    return pools.size() - 1;
+  };
+  auto err_name = [](Error e) -> std::string {
+    return e == Error::kInvalidArgument ? "InvalidArgument" : e == Error::kInvalidState ? "InvalidState" : DebugUtils::error_as_string(e);
+  };
   std::string out = "cc";
   for (size_t i = 2; i < w.size(); i++) {
-    if (w[i].size() < 3 || w[i][1] != ':' || (w[i][0] != 'l' && w[i][0] != 'g')) return "bad-op";
-    uint32_t scope = w[i][0] == 'g';
+    if (i > 2) out += " |";
+    out += " ";
+    const std::string& it = w[i];
+    if (it == "F") {
+      FuncNode* f = nullptr;
+      Error e = cc.add_func_node(Out(f), FuncSignature::build<void>());
+      out += e == Error::kOk ? "ok" : "err " + err_name(e);
+      continue;
+    }
+    if (it == "E") {
+      Error e = cc.end_func();
+      out += e == Error::kOk ? "ok" : "err " + err_name(e);
+      continue;
+    }
+    if (it.size() < 3 || it[1] != ':') return "bad-op";
     std::vector<uint8_t> d;
-    if (!vh::hex_to_bytes(w[i].substr(2), d)) return "bad-op";
+    if (!vh::hex_to_bytes(it.substr(2), d)) return "bad-op";
+    if (it[0] == 'd') {
+      Error e = cc.embed(d.data(), d.size());
+      out += e == Error::kOk ? "ok" : "err " + err_name(e);
+      continue;
+    }
+    if (it[0] != 'l' && it[0] != 'g') return "bad-op";
+    uint32_t scope = it[0] == 'g';
     std::unique_ptr<uint8_t[]> copy(new uint8_t[d.size() ? d.size() : 1]);
     if (!d.empty()) memcpy(copy.get(), d.data(), d.size());
     BaseMem m;
     Error e = cc._new_const(Out<BaseMem>(m), ConstPoolScope(scope), copy.get(), d.size());
-    if (cc._const_pools[scope]) pools[scope] = cc._const_pools[scope];
-    ConstPoolNode* pn = pools[scope];
-    std::string t3 = pn ? std::to_string(pn->size()) + " " + std::to_string(pn->alignment()) + " " + std::to_string(pn->const_pool().min_item_size()) : "0 0 0";
-    if (i > 2) out += " |";
-    out += std::string(" ") + char(w[i][0]) + " ";
+    ConstPoolNode* pn = cc._const_pools[scope];
+    if (!pn) { out += "err " + err_name(e) + " nopool"; continue; }
+    size_t k = ordinal_of(pn);
+    std::string t3 = std::to_string(pn->size()) + " " + std::to_string(pn->alignment()) + " " + std::to_string(pn->const_pool().min_item_size());
     if (e == Error::kOk) {
-      if (!pn || m.base_id() != pn->label_id()) return "err const-mem-does-not-name-the-pool-label";
+      if (m.base_id() != pn->label_id()) return "err const-mem-does-not-name-the-pool-label";
       if (m.signature().size() != d.size()) return "err const-mem-size";
-      out += "ok " + std::to_string(m.offset()) + " " + t3;
+      out += "ok p" + std::to_string(k) + " " + std::to_string(m.offset()) + " " + t3;
     }
     else
-      out += std::string("err ") + (e == Error::kInvalidArgument ? "InvalidArgument" : DebugUtils::error_as_string(e)) + " " + t3;
+      out += "err " + err_name(e) + " p" + std::to_string(k) + " " + t3;
   }
-  // _new_const on an invalid size puts the emitter into error state only if an error handler is attached (none here)
-  Error e = cc.end_func();
-  if (e != Error::kOk) return std::string("err end_func ") + DebugUtils::error_as_string(e);
-  e = cc.finalize();
-  if (e != Error::kOk) return std::string("err finalize ") + DebugUtils::error_as_string(e);
+  Error e = cc.finalize();
+  if (e != Error::kOk) return out + " || err finalize " + DebugUtils::error_as_string(e);
   Section* text = code.text_section();
-  for (uint32_t scope = 0; scope < 2; scope++) {
-    out += scope ? " || G " : " || L ";
-    ConstPoolNode* pn = pools[scope];
-    if (!pn) { out += "none"; continue; }
-    if (!code.is_label_bound(pn->label_id())) { out += "unbound"; continue; }
-    size_t lo = size_t(code.label_offset(pn->label_id()));
-    size_t end = lo + pn->size();
-    if (end > text->buffer_size()) { out += "beyond-section"; continue; }
-    out += "emb " + std::to_string(lo) + " " + std::to_string(pn->size()) + " " + std::to_string(pn->alignment()) + " " + hex_or_dash(text->data(), end);
+  out += " ||";
+  for (size_t k = 0; k < pools.size(); k++) {
+    ConstPoolNode* pn = pools[k];
+    if (k) out += " |";
+    out += " p" + std::to_string(k) + " ";
+    if (!code.is_label_bound(pn->label_id())) out += "unbound";
+    else out += std::to_string(code.label_offset(pn->label_id()));
+    out += " " + std::to_string(pn->size()) + " " + std::to_string(pn->alignment());
   }
+  out += " || " + hex_or_dash(text->data(), text->buffer_size());
   return out;
+}
+
+// `es <arch> <asm|bld> item...`: n (new label), d:<hex> (embed data), b<k> (bind label k), p<k> (embed_const_pool at
+// label k; k beyond the created labels = an invalid label id).  Errors do not stop the sequence.
+// Output: `es <answers> || L0=<off|unbound> ... || <pool size> <pool align> <text hex>`.
+template<typename EmT>
+static std::string es_run(EmT& em, CodeHolder& code, bool builder, const std::vector<std::string>& w) {
+  std::vector<Label> labels;
+  std::string out = "es";
+  auto name = [](Error e) -> std::string {
+    return e == Error::kInvalidLabel ? "InvalidLabel" : e == Error::kLabelAlreadyBound ? "LabelAlreadyBound" : DebugUtils::error_as_string(e);
+  };
+  for (size_t i = 3; i < w.size(); i++) {
+    const std::string& it = w[i];
+    if (i > 3) out += " |";
+    out += " ";
+    Error e = Error::kOk;
+    if (it == "n") labels.push_back(em.new_label());
+    else if (it.size() >= 2 && it[0] == 'd' && it[1] == ':') {
+      std::vector<uint8_t> d;
+      if (!vh::hex_to_bytes(it.substr(2), d)) return "bad-op";
+      if (!d.empty()) e = em.embed(d.data(), d.size());
+    }
+    else if (it.size() >= 2 && (it[0] == 'b' || it[0] == 'p')) {
+      uint64_t k;
+      if (!vh::parse_u64(it.substr(1), k)) return "bad-op";
+      Label L = k < labels.size() ? labels[size_t(k)] : Label(uint32_t(0x00FFFF00u + k));
+      size_t before = code.text_section()->buffer_size();
+      e = it[0] == 'b' ? em.bind(L) : em.embed_const_pool(L, *S.pool);
+      if (e != Error::kOk && !builder && code.text_section()->buffer_size() != before) return "err refused-embed-changed-the-section";
+    }
+    else return "bad-op";
+    out += e == Error::kOk ? "ok" : "err " + name(e);
+  }
+  if (builder) {
+    Error e = em.finalize();
+    if (e != Error::kOk) return out + " || err finalize " + DebugUtils::error_as_string(e);
+  }
+  out += " ||";
+  for (size_t k = 0; k < labels.size(); k++) {
+    out += " L" + std::to_string(k) + "=";
+    out += code.is_label_bound(labels[k]) ? std::to_string(code.label_offset(labels[k])) : std::string("unbound");
+  }
+  Section* text = code.text_section();
+  out += " || " + std::to_string(S.pool->size()) + " " + std::to_string(S.pool->alignment()) + " " + hex_or_dash(text->data(), text->buffer_size());
+  return out;
+}
+
+template<typename AsmT, typename BldT>
+static std::string es_with(Arch arch, bool builder, const std::vector<std::string>& w) {
+  Environment env(arch);
+  CodeHolder code;
+  if (code.init(env) != Error::kOk) return "err init";
+  if (!builder) { AsmT a(&code); return es_run(a, code, false, w); }
+  BldT b(&code);
+  return es_run(b, code, true, w);
 }
 
 static std::string step(const std::string& line) {
@@ -180,7 +261,14 @@ static std::string step(const std::string& line) {
     if (w[1] == "a64") return embed_with<a64::Assembler, a64::Builder>(Arch::kAArch64, bld, pre);
     return "bad-op";
   }
-  if (w[0] == "compile" && w.size() >= 3) {
+  if (w[0] == "es" && w.size() >= 3) {
+    bool bld = w[2] == "bld";
+    if (!bld && w[2] != "asm") return "bad-op";
+    if (w[1] == "x86") return es_with<x86::Assembler, x86::Builder>(Arch::kX64, bld, w);
+    if (w[1] == "a64") return es_with<a64::Assembler, a64::Builder>(Arch::kAArch64, bld, w);
+    return "bad-op";
+  }
+  if (w[0] == "cc" && w.size() >= 2) {
     if (w[1] == "x86") return compile_with<x86::Compiler>(Arch::kX64, w);
     if (w[1] == "a64") return compile_with<a64::Compiler>(Arch::kAArch64, w);
     return "bad-op";
